@@ -337,3 +337,20 @@ def entry_pred_is_all_zero(I, pred):
     want = BV(1, [eq0_bit(tuple(sl('e', 0, 64)))])
     return len(outs) == 1 and outs[0].kind == 'ret' and isinstance(outs[0].val, BV) and same(outs[0].val, want)
 
+
+def is_call_of(chk, I, rule, fn_, target, label=None, sub=None):
+    """`fn_` (no arguments) is exactly one call of `target` whose result it returns (Default::default = new, new = empty, ...)"""
+    if fn_ not in I.fn or target not in I.fn:
+        chk.unproven(rule, label or fn_, 'function not found (anchor lost)')
+        return
+    saved = set(I.opaque_fns)
+    I.opaque_fns |= {target}
+    try:
+        o = I.run(fn_, [], State(), sub)
+    finally:
+        I.opaque_fns = saved
+    chk.count('function-instances')
+    calls = [ev for ev in o[0].st.events if ev[0] == 'call'] if len(o) == 1 else []
+    ok = len(o) == 1 and o[0].kind == 'ret' and len(calls) == 1 and calls[0][1] == target and ('%s#%d' % (target.split('::')[-1], calls[0][5])) in repr(o[0].val) and \
+        not [ev for ev in o[0].st.events if ev[0] in ('write', 'asm', 'rawderef')]
+    chk.ob(rule, label or ('%s is %s()' % (fn_, target.split('::')[-1])), ok, 'paths %r calls %r' % (o, [c[1] for c in calls]), fn_site(I, fn_))
